@@ -15,7 +15,7 @@ from pyvc import logic as L
 from pyvc.logic import Node, Str, null, none_s, text, is_msg, born, orig, cp, forall_nodes, forall_ints
 from pyvc.contracts import LoopSpec
 from .common import A, Imp
-from .roles import found_nodes, enum_start, unique_local
+from .roles import found_nodes, enum_start, unique_local, enum_base, counter_invariant
 from pyvc.values import SList, SInt, SNode, SNone
 
 
@@ -121,6 +121,8 @@ class InsertCopies(LoopSpec):
             z3.ForAll([q, z], Imp(isc(q), A(H.mem(q, z) == A(H0.mem(orig(q), orig(z)), z == cp(born(q), orig(z))),
                                             H.pos(q, z) == H0.pos(orig(q), orig(z)))), patterns=[H.mem(q, z), H.pos(q, z)]))))
         out.append(('ownership', z3.ForAll([q, z], Imp(H.mem(q, z), is_msg(q) == is_msg(z)), patterns=[H.mem(q, z)])))
+        if not self.skipping:
+            out += counter_invariant(lp, i0, k)
         out += self.extra_invariant(cx, lp)
         return out
 
@@ -353,7 +355,7 @@ class InsertBlock(LoopSpec):
         o = self.o
         Hm, H, k = lp.entry.heap, lp.st.heap, lp.k
         P = o.move_parent(cx, lp)
-        Lst = lp.seq.base       # enumerate(<the list of resolved sources>, start=idx)
+        Lst = enum_base(lp)     # enumerate(<the list of resolved sources>, start=idx), or the list itself with a hand-kept counter
         idx = enum_start(lp)
         j = z3.Int('j!C')
         el = lambda i: Lst.elem(i).t
@@ -368,5 +370,6 @@ class InsertBlock(LoopSpec):
                     forall_nodes(1, lambda z: Imp(H.mem(P, z), z3.Or(Hm.mem(P, z), o.in_list(lp.st.ghost, Lst, k, z))),
                                  patterns=lambda z: [H.mem(P, z)])))
         out.append(('length', H.len(P) == Hm.len(P) + k))
+        out += counter_invariant(lp, idx, k)
         out += frame_other_parents(Hm, H, P, cx.W.lit(o.move_tag))
         return out
